@@ -5,12 +5,14 @@ Model/StoreErr.v).  Exceptions cross the wire as their position in props/c08_exn
 the Coq enum); the first part of every run checks that this table, the direct-base table and the whole
 isinstance matrix of the model equal the real Python classes.
 """
+import concurrent.futures
 import importlib
 import os
 import re
 import shutil
 import subprocess
 import sys
+import time
 import unittest.mock
 
 import numpy as np
@@ -25,7 +27,12 @@ RULE = ('(1) exhaustive: the 103 exception classes of the model enum (names, dir
         'get_chunk / get_chunk_or_default / get_chunk_or_placeholder; (2) every truncation offset (quick: all header '
         'offsets plus a sample of body offsets) of chunk files written by the real NPY store (plain and direct_write) '
         'and of objects served by a loopback HTTP server with the full Content-Length, for several dtypes/shapes, plus '
-        'a few non-prefix corruptions; (3) dtype/shape mismatch matrix on the dict, NPY and S3 stores; (4) store-level '
+        'a few non-prefix corruptions; (2b) the S3 read as ONE HTTP response = (bytes the server holds under the key: the '
+        'object truncated IN THE STORE at byte k, Content-Length it announces: honest k / whole object / none / any other '
+        'number, bytes it delivers): every k of a 140-byte object with the honest Content-Length, header-boundary / last-byte '
+        '/ random k for three more geometries, transfers cut in flight, no Content-Length, and random (held, delivered, '
+        'announced) triples incl. Content-Length shorter / longer than what arrives -- compared with the response-level '
+        'model (wire 83) and with "data only if the whole object arrived"; (3) dtype/shape mismatch matrix on the dict, NPY and S3 stores; (4) store-level '
         'faults (missing directory, EACCES as an unprivileged uid, ENOTDIR, EISDIR, 401/403, missing/empty bucket, '
         'connection refused); (5) the same faults under ChunkStoreVisFlagsWeights of a v4 data set (NPY and S3); '
         '(5b) data sets (T, F <= 6; B <= 4, or 4 / 12 through VisibilityDataV4) whose four arrays are chunked '
@@ -44,9 +51,21 @@ RULE = ('(1) exhaustive: the 103 exception classes of the model enum (names, dir
         '8192-byte boundaries, file end, padded end plus a seeded random sample strictly inside header and body '
         '(thorough: every offset of files <= 2500 bytes, more geometries incl. a 96128-byte chunk); the straced '
         'system-call results of every put are fed to the model state machine as its event list and report, final '
-        'state, temp state and the calls issued are compared.  A case is non-trivial when a fault is present; '
+        'state, temp state and the calls issued are compared; (8) writing to the S3 store through the loopback endpoint: '
+        'put_chunk / put_chunk_noraise answered with EVERY status of a list (2xx: 200 201 204; 13 client errors; 12 server '
+        'errors incl. 501 505 507 508 511 outside and 500 502 503 504 inside the retry force list; 301 / 307 without '
+        'Location) under six Retry configurations (the store default, force list with 0 / 1 / 2 status retries, no force '
+        'list, a custom force list), answer SEQUENCES (glitch x k then 2xx / 4xx / 5xx), put_dask_array with per-block '
+        'answers (the store running full halfway), mark_complete (bucket PUT x marker PUT answers, 409 = exists), nobody '
+        'listening, a chunk that does not fit its slices: outcome, what is in the store afterwards and the attempts made '
+        'are compared with the model (wire 83) and with "success reported => the complete object is in the store; every '
+        'attempt refused => a ChunkStoreError is raised / returned".  A case is non-trivial when a fault is present; '
         'distinct by (part, store, geometry, fault, offset / limit, previous chunk).')
-ASSUMPTIONS = ['S3 cases use retries=0 so a persistent truncation exhausts the read retries at once (retry schedule: C09)',
+ASSUMPTIONS = ['S3 responses: the loopback server sends exactly the planned bytes and closes; a blocking socket read returns '
+               'everything that arrives before the close (so one read() / readinto() sees all of it)',
+               'S3 puts: a status inside the Retry force list is only answered to stores whose Retry object has backoff 0 '
+               '(the default object would sleep 10 s+ between attempts); 1xx and 3xx-with-Location answers are not generated',
+               'S3 cases use retries=0 so a persistent truncation exhausts the read retries at once (retry schedule: C09)',
                'a SIGKILL injected on entry of a system call may or may not let that call take effect: both model '
                'crash points k and k+1 are accepted',
                'the short-write case needs permission to mount a 16 KiB tmpfs; it is skipped (and counted) otherwise',
@@ -435,6 +454,15 @@ def s3_store(url):
     return S3ChunkStore(url, timeout=(3, 3), retries=0)
 
 
+def s3_cut_offsets(ctx, n, hdr_end, every=False):
+    """Offsets at which a transfer is cut under the whole Content-Length (every offset in the thorough tier); the objects
+    truncated in the store / other Content-Lengths are part 2b."""
+    if ctx.tier == 'thorough' or every:
+        return list(range(n + 1))
+    ks = {0, 1, 5, 6, 7, 8, 9, 10, 11, 12, hdr_end - 1, hdr_end, hdr_end + 1, n - 2, n - 1, n} | {ctx.rng.randrange(n + 1) for _ in range(6)}
+    return sorted(k for k in ks if 0 <= k <= n)
+
+
 def part_s3(ctx, files):
     from katdal.chunkstore import npy_header_and_body
     srv = c08_s3fake.FakeS3()
@@ -452,7 +480,7 @@ def part_s3(ctx, files):
             srv.put(path, full)
             exps = ctx.model([[81, [10, list(full), want_of(dt, shape)]]])[0]
             hdr_end = len(hdr)
-            for k in offsets(ctx, len(full), hdr_end, 28):
+            for k in s3_cut_offsets(ctx, len(full), hdr_end, every=(gi == 0)):
                 srv.plan(path, ('cut', k) if k < len(full) else ('ok',))
                 obs = three(store, arr, sl, x.dtype, x)
                 case = dict(part='s3_truncation', dtype=dt, shape=list(shape), offset=k, size=len(full))
@@ -466,7 +494,7 @@ def part_s3(ctx, files):
                     ctx.disagree('store=s3;fault=truncation;symptom=not_reported_missing', case, show(obs[0]),
                                  'a ChunkNotFound', 'a truncated object is not reported as a missing chunk')
                 ctx.note_case(('s3T', dt, shape, k), nontrivial=k < len(full),
-                              sample=dict(case, outcome=[show(o) for o in obs]) if k == 40 and gi == 0 else None)
+                              sample=dict(case, outcome=[show(o) for o in obs]) if k == 10 and gi == 0 else None)
                 ctx.count('s3_truncation_offsets')
             srv.plan(path, None)
         # corrupted (non-prefix) objects: raw ValueError escapes the S3 map (model: not caught)
@@ -527,6 +555,395 @@ def part_s3(ctx, files):
         check_store_level(ctx, 's3', 'R_ConnectionError', obs, case)
         ctx.note_case(('s3F', 'refused'), nontrivial=True)
         ctx.count('s3_store_faults')
+    finally:
+        srv.close()
+
+
+# ------------------------------------------------------------------------------------------------
+# part 2b: the S3 read at the level of one HTTP response (wire 83 = Model/S3Wire.v): the server HOLDS the first
+#          `held` bytes of the object, ANNOUNCES Content-Length `cl` (None: no header) and DELIVERS `delivered` bytes
+
+RESP_GEOMS = [('u1', (3, 4)), ('<c8', (2, 3, 2)), ('<f4', (0, 3)), ('u1', ())]
+
+
+def resp_cases(ctx, n, hdr_end, every):
+    rng = ctx.rng
+    cases = []
+    if every:
+        ks = range(n + 1)
+    else:
+        ks = sorted(k for k in ({0, 1, 5, 6, 7, 8, 9, 10, 11, hdr_end - 1, hdr_end, hdr_end + 1, n - 2, n - 1, n}
+                                | {rng.randrange(n + 1) for _ in range(10)}) if 0 <= k <= n)
+    for k in ks:
+        cases.append((k, k, k))                      # truncated IN THE STORE, honestly announced, all of it delivered
+    pool = [k for k in sorted({0, 1, 8, 9, 10, hdr_end - 1, hdr_end, hdr_end + 1, n - 1} | {rng.randrange(n + 1) for _ in range(4)})
+            if 0 <= k <= n]
+    for k in rng.sample(pool, min(len(pool), 6 if ctx.tier != 'thorough' else len(pool))):
+        cases.append((n, k, n))                      # cut in flight under the whole Content-Length
+        cases.append((k, k, None))                   # no Content-Length at all: the connection just ends
+    for _ in range(ctx.scale(10, 80)):               # any combination
+        held = rng.choice([n, n, rng.randrange(n + 1)])
+        delivered = rng.choice([held, held, rng.randrange(held + 1)])
+        cl = rng.choice([None, held, n, n + 1, n + 7, max(0, n - 1), rng.randrange(n + 8)])
+        cases.append((held, delivered, cl))
+    cases += [(n, n, n), (n, n, None), (n, n, n + 3), (n, n, max(0, n - 1)), (n, n + 5, n)]
+    seen, out = set(), []
+    for c in cases:
+        if c not in seen:
+            seen.add(c)
+            out.append(c)
+    return out
+
+
+def resp_features(n, hdr_end, held, delivered, cl):
+    arrived = min(held, delivered, n if cl is None else cl)
+    trunc = ('none' if held >= n and delivered >= min(held, n) else 'store' if held < n and delivered >= held
+             else 'flight' if held >= n else 'both')
+    cll = 'none' if cl is None else 'whole' if cl == n else 'honest' if cl == min(held, n) else 'short' if cl < n else 'long'
+    where = 'zero' if arrived == 0 else 'header' if arrived < hdr_end else 'body' if arrived < n else 'complete'
+    return 'truncated=%s;content_length=%s;arrived=%s' % (trunc, cll, where)
+
+
+_WIRES = {}
+
+
+def wire_ok(ctx, w):
+    """Is wire w served by the model binary of this run?  (A model file whose translator item failed is left out of the
+    driver; the parts that use it then run their property half only.)"""
+    if not ctx.model_ok:
+        return False
+    if w not in _WIRES:
+        try:
+            ctx.model([[w, [0]]])
+            _WIRES[w] = True
+        except Exception:
+            _WIRES[w] = False
+    return _WIRES[w]
+
+
+def part_s3_response(ctx, only=None):
+    from katdal.chunkstore import npy_header_and_body
+    srv = c08_s3fake.FakeS3()
+    have_model = wire_ok(ctx, 83)
+    try:
+        store = s3_store(srv.url)
+        geoms = RESP_GEOMS + ([('<c8', (4, 8, 6)), ('<i2', (7, 1))] if ctx.tier == 'thorough' else [])
+        if only is not None:
+            geoms = [(only['dtype'], tuple(only['shape']))]
+        for gi, (dt, shape) in enumerate(geoms):
+            x = make_chunk(dt, shape, 3)
+            hdr, body = npy_header_and_body(x)
+            full = bytes(hdr) + body.tobytes()
+            n, hdr_end = len(full), len(hdr)
+            sl = tuple(slice(0, m) for m in shape)
+            arr = 'rsp/arr%d' % gi
+            path = '/' + store.chunk_metadata(arr, sl)[0] + '.npy'
+            srv.put(path, full)
+            cases = ([tuple(only['response'])] if only is not None
+                     else resp_cases(ctx, n, hdr_end, every=(gi == 0 or ctx.tier == 'thorough')))
+            mouts = (ctx.model([[83, [1, list(full), want_of(dt, shape),
+                                      [[h, d, [] if c is None else [c]] for h, d, c in cases]]]])[0]
+                     if have_model else [None] * len(cases))
+            for (held, delivered, cl), mo in zip(cases, mouts):
+                srv.plan(path, ('raw', cl, full[:held][:delivered] if delivered <= held else full[:held] + b'J' * (delivered - held)))
+                obs = three(store, arr, sl, x.dtype, x)
+                feat = resp_features(n, hdr_end, held, delivered, cl)
+                case = dict(part='s3_response', dtype=dt, shape=list(shape), size=n, response=[held, delivered, cl])
+                complete = held >= n and delivered >= n and (cl is None or cl >= n)
+                if mo is not None:
+                    compare_three(ctx, 's3_response', case, obs, mo[0], feat, zero_size=x.size == 0)
+                    if bool(mo[2]) != complete:
+                        ctx.disagree('part=s3_response;what=spec_bit', case, complete, mo[2],
+                                     '"the whole object arrived" differs between the model and the harness', kind='tie')
+                else:
+                    ctx.traces_validated += 1
+                if not complete and obs[0][0] == 0:
+                    ctx.disagree('part=s3_response;%s;symptom=truncated_returned_as_data' % feat, case, show(obs[0]),
+                                 'a ChunkNotFound', 'an object of which only a part arrived was returned as data')
+                if not complete and x.size and any(o[0] == 0 and o[1] in (0, -1) for o in obs[1:]):
+                    ctx.disagree('part=s3_response;%s;symptom=truncated_returned_as_data_by_filling_getter' % feat, case,
+                                 [show(o) for o in obs], 'filler', 'get_chunk_or_default / _or_placeholder returned a partial object')
+                if not complete and obs[0][0] == 1 and not is_notfound(obs[0][1]):
+                    ctx.disagree('part=s3_response;%s;symptom=not_reported_missing' % feat, case, show(obs[0]),
+                                 'a ChunkNotFound', 'an incomplete object is not reported as a missing chunk')
+                ctx.note_case(('s3R', dt, shape, held, delivered, cl), nontrivial=not complete,
+                              sample=dict(case, outcome=[show(o) for o in obs]) if (held, delivered, cl) == (n - 1, n - 1, n - 1) and gi == 0 else None)
+                ctx.count('s3_response:' + feat.split(';')[0])
+            srv.plan(path, None)
+    finally:
+        srv.close()
+
+
+# ------------------------------------------------------------------------------------------------
+# part 8: writing to the S3 store: a refused PUT is reported, for every status class (wire 83)
+
+PUT_2XX = [200, 201, 204]
+PUT_4XX = [400, 401, 403, 404, 405, 409, 411, 412, 413, 416, 429, 451, 499]
+PUT_5XX = [500, 501, 502, 503, 504, 505, 506, 507, 508, 510, 511, 599]
+PUT_3XX = [301, 307]        # a redirect without a Location header: nothing for requests to follow (finding C08-F5g)
+SIG_3XX = 'store=s3;fault=put_answered_3xx;symptom=failure_swallowed'
+
+
+def put_retry_cfgs():
+    from urllib3.util.retry import Retry
+    from katdal.chunkstore_s3 import _DEFAULT_SERVER_GLITCHES
+    g = tuple(_DEFAULT_SERVER_GLITCHES)
+    mk = lambda **kw: Retry(connect=0, read=0, backoff_factor=0, **kw)       # noqa: E731
+    return [('default', 0),                                  # the store's own Retry object (status=5, backoff 10 s): never
+                                                             # given a status of its force list here (it would sleep)
+            ('glitches_status0', mk(status=0, status_forcelist=g)),
+            ('glitches_status1', mk(status=1, status_forcelist=g)),
+            ('glitches_status2', mk(status=2, status_forcelist=g)),
+            ('no_forcelist', mk(status=2)),
+            ('forcelist_507_509', mk(status=1, status_forcelist=(507, 509)))]
+
+
+def put_status_label(s, fl):
+    if 200 <= s < 300:
+        return '2xx'
+    if 300 <= s < 400:
+        return '3xx'
+    if 400 <= s < 500:
+        return '4xx_forcelist' if s in fl else '4xx'
+    if 500 <= s < 600:
+        return '5xx_forcelist' if s in fl else '5xx_outside_forcelist'
+    return 'other'
+
+
+def put_sequences(ctx, label, fl, nstat):
+    quick = ctx.tier != 'thorough'
+    seqs = []
+    singles = PUT_2XX + PUT_4XX + PUT_5XX
+    if quick and label not in ('default', 'glitches_status0'):
+        singles = sorted(set(ctx.rng.sample(singles, 8)) | {200, 403, 501, 507})
+    if label == 'default':
+        singles = singles + PUT_3XX
+    for s in singles:
+        if label == 'default' and s in fl:
+            continue
+        seqs.append([s])
+    if label != 'default':
+        gs = sorted(fl) or [503]
+        for _ in range(ctx.scale(6, 30)):
+            g = ctx.rng.choice(gs)
+            k = ctx.rng.randint(1, nstat + 1)
+            tail = ctx.rng.choice([[200], [201], [507], [403], [501], [ctx.rng.choice(gs)], [ctx.rng.choice(PUT_5XX)], [404]])
+            seqs.append([g] * k + tail)
+        seqs += [[gs[0], 200], [gs[0]] * (nstat + 1) + [200], [gs[0]] * nstat + [507]]
+    return seqs
+
+
+def _ans(a, nstat):
+    """Answers for the model: the loopback server answers 200 once its plan for the path is used up."""
+    return [[0, s] for s in list(a) + [200] * (nstat + 2)]
+
+
+def _obs_call(fn):
+    try:
+        r = fn()
+    except BaseException as e:   # noqa: B902
+        return ['raise', exn_index(e)]
+    return ['ok'] if r is None else ['returned', exn_index(r) if isinstance(r, BaseException) else -2]
+
+
+def _exp_put(mo, op):
+    if op == 'put_chunk':
+        return ['ok'] if mo[0] == [0] else ['raise', mo[0][1]]
+    return ['ok'] if mo[1] == [0] else ['returned', mo[1][1]] if mo[1][0] == 1 else ['raise', mo[1][1]]
+
+
+def show_put(o):
+    return o[0] if o[0] == 'ok' else '%s %s' % (o[0], exn_label(o[1]))
+
+
+def put_spec(ctx, sig, case, op, obs, answered, stored_ok, what):
+    """The property on the observation alone: every attempt was answered with an error status => an error is reported
+    (raised by put_chunk / mark_complete, returned by put_chunk_noraise) and it is a ChunkStoreError; success reported
+    => the object is in the store, complete."""
+    refused = bool(answered) and all(400 <= s < 600 for s in answered)
+    if obs[0] == 'ok' and not stored_ok and answered and 300 <= answered[-1] < 400:
+        ctx.disagree(SIG_3XX, case, show_put(obs), 'an error (answered %s)' % answered,
+                     '%s reported success although the server answered with a redirect status and stored nothing' % what)
+    elif obs[0] == 'ok' and not stored_ok:
+        ctx.disagree(sig + ';symptom=failure_swallowed', case, show_put(obs), 'an error (answered %s)' % answered,
+                     '%s reported success but the object is not in the store' % what)
+    elif refused and obs[0] == 'ok':
+        ctx.disagree(sig + ';symptom=failure_swallowed', case, show_put(obs), 'an error (answered %s)' % answered,
+                     '%s reported success although the server refused every attempt' % what)
+    if refused and obs[0] != 'ok':
+        good = 'returned' if op == 'put_chunk_noraise' else 'raise'
+        if obs[0] != good or not is_chunkstore_error(obs[1]):
+            ctx.disagree(sig + ';symptom=not_a_chunkstore_error', case, show_put(obs), good + ' a ChunkStoreError',
+                         '%s reported the refused put with something that is not a %s ChunkStoreError' % (what, good))
+
+
+def part_s3_put(ctx, only=None):
+    import dask
+    import dask.array as da
+    from katdal.chunkstore import npy_header_and_body
+    from katdal.chunkstore_s3 import S3ChunkStore
+    srv = c08_s3fake.FakeS3()
+    counter = [0]
+    have_model = wire_ok(ctx, 83)
+
+    def fresh():
+        counter[0] += 1
+        return counter[0]
+    try:
+        x = make_chunk('<f4', (3, 4), 7)
+        sl = (slice(0, 3), slice(0, 4))
+        hdr, body = npy_header_and_body(x)
+        xbytes = bytes(hdr) + body.tobytes()
+        if have_model:
+            mflags = ctx.model([[83, [6]]])[0]
+        cfgs = put_retry_cfgs()
+        for label, retries in cfgs:
+            if only is not None and only.get('retry') != label:
+                continue
+            store = S3ChunkStore(srv.url, timeout=(3, 3), retries=retries)
+            fl = sorted(store.retries.status_forcelist or ())
+            nstat = store.retries.status
+            mcfg = [fl, nstat]
+            if label == 'default' and have_model:
+                ctx.traces_validated += 1
+                if mflags[5] != fl:
+                    ctx.disagree('part=s3_put;what=force_list', dict(part='s3_put', retry=label), fl, mflags[5],
+                                 'status force list of the store differs from the translated _DEFAULT_SERVER_GLITCHES', kind='tie')
+            # ---- put_chunk / put_chunk_noraise
+            seqs = put_sequences(ctx, label, fl, nstat) if only is None else ([only['answers']] if only.get('op') in ('put_chunk', 'put_chunk_noraise') else [])
+            mouts = ctx.model([[83, [2, mcfg, 1, _ans(a, nstat)]] for a in seqs]) if have_model else [None] * len(seqs)
+            for answers, mo in zip(seqs, mouts):
+                for op in ('put_chunk', 'put_chunk_noraise'):
+                    if only is not None and only['op'] != op:
+                        continue
+                    arr = 'pb/a%d' % fresh()
+                    path = '/' + store.chunk_metadata(arr, sl, chunk=x)[0] + '.npy'
+                    srv.put_plan(path, answers)
+                    obs = _obs_call(lambda: getattr(store, op)(arr, sl, x))
+                    answered = srv.attempts(path)
+                    stored_ok = srv.get(path) == xbytes
+                    srv.put_plan(path, None)
+                    case = dict(part='s3_put', op=op, retry=label, answers=answers)
+                    sig = 'part=s3_put;op=%s;last_status=%s' % (op, put_status_label(answered[-1], fl) if answered else 'none')
+                    ctx.traces_validated += 1
+                    if mo is not None:
+                        exp = _exp_put(mo, op)
+                        if obs != exp or bool(mo[2]) != stored_ok or mo[3] != len(answered):
+                            ctx.disagree(sig + ';tie;symptom=%s' % ('outcome' if obs != exp else 'stored' if bool(mo[2]) != stored_ok else 'attempts'),
+                                         case, dict(outcome=show_put(obs), stored=stored_ok, attempts=answered),
+                                         dict(outcome=show_put(exp), stored=bool(mo[2]), attempts=mo[3]),
+                                         'outcome / store content / attempts of the put differ from the model', kind='tie')
+                    put_spec(ctx, sig, case, op, obs, answered, stored_ok, op)
+                    ctx.note_case(('s3P', label, op, tuple(answers)), nontrivial=any(s >= 300 for s in answers),
+                                  sample=dict(case, outcome=show_put(obs), stored=stored_ok) if answers == [507] and op == 'put_chunk_noraise' else None)
+                    ctx.count('s3_put:' + put_status_label(answers[-1], fl))
+            # ---- put_dask_array: one put_chunk_noraise per block
+            if label in ('default', 'glitches_status1', 'forcelist_507_509') and (only is None or only.get('op') == 'put_dask_array'):
+                data = np.arange(4 * 6, dtype=np.float32).reshape(4, 6) + 1
+                blocks = [(0, 0), (0, 3), (2, 0), (2, 3)]
+                scen = []
+                if only is not None:
+                    scen = [only['answers']]
+                else:
+                    choices = [[200], [507], [403], [501], [404], [505]] + ([[fl[0], 200], [fl[0], fl[0]], [fl[0], 507]] if label != 'default' else [])
+                    scen.append([[200], [200], [507], [507]])            # the store runs full halfway through
+                    for _ in range(ctx.scale(2, 10)):
+                        scen.append([ctx.rng.choice(choices) for _ in blocks])
+                mouts = ctx.model([[83, [3, mcfg, [_ans(a, nstat) for a in sc]]] for sc in scen]) if have_model else [None] * len(scen)
+                for sc, mo in zip(scen, mouts):
+                    arr = 'pb/d%d' % fresh()
+                    paths = []
+                    for (t, f), a in zip(blocks, sc):
+                        path = '/%s/%05d_%05d.npy' % (arr, t, f)
+                        paths.append(path)
+                        srv.put_plan(path, a)
+                    try:
+                        with dask.config.set(scheduler='sync'):
+                            res = store.put_dask_array(arr, da.from_array(data, chunks=(2, 3))).compute()
+                        got = [_obs_call(lambda r=res[i // 2, i % 2]: r) for i in range(4)]
+                        got = [['ok'] if g == ['ok'] else g for g in got]
+                    except BaseException as e:   # noqa: B902
+                        got = ['raise', exn_index(e)]
+                    case = dict(part='s3_put', op='put_dask_array', retry=label, answers=sc)
+                    ctx.traces_validated += 1
+                    if mo is not None:
+                        exp = (['raise', mo[0][1]] if mo[0][0] == 1 else
+                               [['ok'] if r == [0] else ['returned', r[1]] if r[0] == 1 else ['raise', r[1]] for r in mo[0][1]])
+                        if got != exp:
+                            ctx.disagree('part=s3_put;op=put_dask_array;tie;symptom=outcome', case, got, exp,
+                                         'result array of put_dask_array differs from the model', kind='tie')
+                    if got and got[0] == 'raise':
+                        ctx.disagree('part=s3_put;op=put_dask_array;symptom=compute_raises', case, exn_label(got[1]), 'an array of None / error objects',
+                                     'put_dask_array(...).compute() raised instead of reporting per chunk')
+                    else:
+                        for i, ((t, f), path) in enumerate(zip(blocks, paths)):
+                            h2, b2 = npy_header_and_body(np.ascontiguousarray(data[t:t + 2, f:f + 3]))
+                            ok = srv.get(path) == bytes(h2) + b2.tobytes()
+                            answered = srv.attempts(path)
+                            put_spec(ctx, 'part=s3_put;op=put_dask_array;last_status=%s' % (put_status_label(answered[-1], fl) if answered else 'none'),
+                                     dict(case, block=i), 'put_chunk_noraise', got[i], answered, ok, 'put_dask_array (block %d)' % i)
+                    for path in paths:
+                        srv.put_plan(path, None)
+                    ctx.note_case(('s3D', label, str(sc)), nontrivial=True,
+                                  sample=dict(case, result=[show_put(g) for g in got] if got and got[0] != 'raise' else 'raise') if sc == [[200], [200], [507], [507]] and label == 'default' else None)
+                    ctx.count('s3_put:dask')
+            # ---- mark_complete: bucket PUT (409 is fine), then the marker PUT
+            if label in ('default', 'glitches_status1') and (only is None or only.get('op') == 'mark_complete'):
+                if only is not None:
+                    pairs = [tuple(only['answers'])]
+                else:
+                    pairs = [([200], [200]), ([409], [200]), ([409], [507]), ([200], [501]), ([403], [200]), ([507], [200]),
+                             ([200], [403]), ([200], [404]), ([505], [505])]
+                    if label != 'default':
+                        pairs += [([fl[0], 200], [fl[0], 507]), ([fl[0], fl[0]], [200]), ([fl[0], 409], [fl[0], 204])]
+                    if ctx.tier != 'thorough':
+                        pairs = pairs[:3] + ctx.rng.sample(pairs[3:], 4)
+                mouts = ctx.model([[83, [4, mcfg, _ans(b, nstat), _ans(m, nstat)]] for b, m in pairs]) if have_model else [None] * len(pairs)
+                for (b, m), mo in zip(pairs, mouts):
+                    k = fresh()
+                    arr = 'mb%d/arr' % k
+                    mpath = '/mb%d/arr/complete' % k
+                    srv.put_plan('/mb%d' % k, b)
+                    srv.put_plan(mpath, m)
+                    obs = _obs_call(lambda: store.mark_complete(arr))
+                    stored_ok = srv.get(mpath) is not None
+                    answered_b, answered_m = srv.attempts('/mb%d' % k), srv.attempts(mpath)
+                    seen = _obs_call(lambda: None if s3_store(srv.url).is_complete(arr) else ValueError('not complete'))
+                    case = dict(part='s3_put', op='mark_complete', retry=label, answers=[list(b), list(m)])
+                    last = (answered_m or answered_b or [0])[-1]
+                    sig = 'part=s3_put;op=mark_complete;last_status=%s' % put_status_label(last, fl)
+                    ctx.traces_validated += 1
+                    if mo is not None:
+                        exp = ['ok'] if mo[0] == [0] else ['raise', mo[0][1]]
+                        if obs != exp or bool(mo[1]) != stored_ok:
+                            ctx.disagree(sig + ';tie;symptom=%s' % ('outcome' if obs != exp else 'stored'), case,
+                                         dict(outcome=show_put(obs), marker_stored=stored_ok), dict(outcome=show_put(exp), marker_stored=bool(mo[1])),
+                                         'mark_complete differs from the model', kind='tie')
+                    if (seen == ['ok']) != stored_ok:
+                        ctx.disagree(sig + ';symptom=is_complete_wrong', case, seen, stored_ok, 'is_complete disagrees with the store content')
+                    bucket_refused = bool(answered_b) and all(400 <= s < 600 and s != 409 for s in answered_b)
+                    put_spec(ctx, sig, case, 'mark_complete', obs, answered_b if bucket_refused else answered_m,
+                             stored_ok, 'mark_complete')
+                    ctx.note_case(('s3M', label, str(b), str(m)), nontrivial=True)
+                    ctx.count('s3_put:mark_complete')
+        if only is None:
+            # nobody listens; and a chunk that does not fit its slices is refused before anything is sent
+            dead = S3ChunkStore('http://127.0.0.1:%d' % c08_s3fake.closed_port(), timeout=(3, 3), retries=0)
+            store = S3ChunkStore(srv.url, timeout=(3, 3), retries=0)
+            for nm, st, args, wire in (('connection_refused', dead, ('pb/dead', sl, x), [2, [[], 0], 1, [[1, IDX['R_ConnectionError']]]]),
+                                       ('bad_shape', store, ('pb/bad', (slice(0, 2), slice(0, 4)), x), [2, [[], 0], 0, [[0, 200]]])):
+                mo = ctx.model([[83, wire]])[0] if have_model else None
+                for op in ('put_chunk', 'put_chunk_noraise'):
+                    obs = _obs_call(lambda: getattr(st, op)(*args))
+                    case = dict(part='s3_put', op=op, fault=nm)
+                    ctx.traces_validated += 1
+                    if mo is not None and obs != _exp_put(mo, op):
+                        ctx.disagree('part=s3_put;op=%s;fault=%s;tie' % (op, nm), case, show_put(obs), show_put(_exp_put(mo, op)),
+                                     'put on an unreachable store / of a misshapen chunk differs from the model', kind='tie')
+                    if obs[0] == 'ok' or not is_chunkstore_error(obs[1]):
+                        ctx.disagree('part=s3_put;op=%s;fault=%s;symptom=failure_swallowed' % (op, nm), case, show_put(obs),
+                                     'a ChunkStoreError', 'a put that cannot have stored anything is not reported')
+                    ctx.note_case(('s3P', nm, op), nontrivial=True)
     finally:
         srv.close()
 
@@ -1071,7 +1488,7 @@ def dmg_fault_label(dm, hdr_end):
     if dm['kind'] != 'truncate':
         return dm['kind']
     k = dm['offset']
-    return 'truncate_' + ('zero' if k == 0 else 'header' if k < hdr_end else 'body')
+    return 'truncate_' + ('zero' if k == 0 else 'header' if k < hdr_end else 'body') + ('_in_store' if dm.get('mode') == 'store' else '')
 
 
 class _DmgStore:
@@ -1115,13 +1532,15 @@ class _DmgStore:
     def original(self, name, idx):
         return open(os.path.join(self.tmp, self.rel(name, idx)), 'rb').read()
 
-    def apply(self, name, idx, data, full, via_s3):
+    def apply(self, name, idx, data, full, via_s3, mode=None):
         rel = self.rel(name, idx)
         if via_s3:
             if isinstance(data, tuple):
                 self.srv.plan('/' + rel, data)
             elif data is None:
                 self.srv.plan('/' + rel, ('status', 404))
+            elif len(data) < len(full) and full.startswith(data) and mode == 'store':
+                self.srv.plan('/' + rel, ('raw', len(data), data))    # the object is short IN THE STORE: honest Content-Length
             elif len(data) < len(full) and full.startswith(data):
                 self.srv.plan('/' + rel, ('cut', len(data)))      # whole-object Content-Length, body cut
             else:
@@ -1173,7 +1592,10 @@ def dmg_scenarios(ctx, geo, st, n_random, every_chunk):
         if kind == 'truncate':
             off = rng.choice([k for k in (0, 1, 5, 6, 7, 8, 9, 10, 11, hdr_end - 1, hdr_end, hdr_end + 1, len(full) - 1,
                                           rng.randrange(len(full)), rng.randrange(len(full))) if 0 <= k < len(full)])
-        return dict(array=name, idx=list(idx), kind=kind, offset=off)
+        dm = dict(array=name, idx=list(idx), kind=kind, offset=off)
+        if kind == 'truncate' and geo.get('s3'):
+            dm['mode'] = rng.choice(['store', 'store', 'flight'])
+        return dm
     if every_chunk:      # every chunk of every array once (which elements a damaged chunk covers is the point)
         allc = [(name, idx) for name in ARRAYS for idx in _all_idx(chunks[name])]
         if ctx.tier != 'thorough' and len(allc) > every_chunk:
@@ -1236,7 +1658,7 @@ def dmg_check(ctx, geo, st, scenario, via_s3, mout):
     try:
         for dm, full in zip(scenario, fulls):
             arr = vals[dm['array']][_chunk_slices(geo['chunks'][dm['array']], tuple(dm['idx']))]
-            st.apply(dm['array'], tuple(dm['idx']), dmg_bytes(dm['kind'], dm['offset'], full, arr), full, via_s3)
+            st.apply(dm['array'], tuple(dm['idx']), dmg_bytes(dm['kind'], dm['offset'], full, arr), full, via_s3, dm.get('mode'))
         res = st.load(via_s3)
     finally:
         for dm, full in zip(scenario, fulls):
@@ -1351,14 +1773,14 @@ def dmg_run_geometry(ctx, geo, tmp, srv, n_random, every_chunk, tag):
 
 def dmg_run_scenarios(ctx, geo, st, scen):
     via = bool(geo.get('s3'))
-    mouts = ctx.model([dmg_wire(geo, st, sc, via) for sc in scen]) if ctx.model_ok else [None] * len(scen)
+    mouts = ctx.model([dmg_wire(geo, st, sc, via) for sc in scen]) if wire_ok(ctx, 82) else [None] * len(scen)
     # healthy store first: nothing flagged, nothing zeroed
-    m0 = ctx.model([dmg_wire(geo, st, [], via)])[0] if ctx.model_ok else None
+    m0 = ctx.model([dmg_wire(geo, st, [], via)])[0] if wire_ok(ctx, 82) else None
     dmg_check(ctx, geo, st, [], via, m0)
     for sc, mo in zip(scen, mouts):
         out = dmg_check(ctx, geo, st, sc, via, mo)
         key = (geo['path'], via, geo['T'], geo['F'], geo['B'], str(geo['chunks']), str(geo['pre']),
-               tuple((d['array'], tuple(d['idx']), d['kind'], d['offset']) for d in sc))
+               tuple((d['array'], tuple(d['idx']), d['kind'], d['offset'], d.get('mode')) for d in sc))
         straddle = geo['style'].startswith('shifted') or geo['style'] in ('random', 'finer')
         ctx.note_case(key, nontrivial=True,
                       sample=dict(style=geo['style'], path=geo['path'], chunks=geo['chunks'], pre=geo['pre'], damages=sc, outcome=out)
@@ -1422,6 +1844,7 @@ def strace_fast():
 
 
 _ATTACH = [True]
+PUT_WORKERS = 8       # injected children of part 6 that run at the same time
 
 
 class _Done:
@@ -1565,8 +1988,9 @@ def part_put(ctx, tmp):
             continue
         sizes = [o[2] for o in ops if o[0] == 'write']
         trunc = next((o[2] for o in ops if o[0] == 'ftruncate'), None)
-        mops = model_ops(ctx, base, sizes, trunc)
+        have_model = wire_ok(ctx, 81)       # without it (broken tie) only the property half of this part runs
         obs_ops = [[o[0], o[1]] + ([o[2]] if o[0] in ('write', 'ftruncate', 'rename') else []) for o in ops]
+        mops = model_ops(ctx, base, sizes, trunc) if have_model else obs_ops
         ctx.traces_validated += 1
         if obs_ops != mops:
             ctx.disagree('part=put_trace;direct=%s;symptom=syscall_sequence' % direct, case, obs_ops, mops,
@@ -1601,15 +2025,30 @@ def part_put(ctx, tmp):
             rest = [f for f in faults if f not in keep]
             ctx.rng.shuffle(rest)
             faults = (keep + rest)[:(7 if ci == 0 else 4)]
+        # the injected children are independent of each other: each gets a directory of its own and they run a few at a
+        # time; the comparisons below then go through the results in the original order
+        tasks = []
         for (k, sc, n, what, low) in faults:
             for with_old in ((False, True) if (ctx.tier == 'thorough' or what == 'signal=SIGKILL') else (ctx.rng.random() < 0.5,)):
-                for p in (tmpn, finaln):
-                    if os.path.exists(p):
-                        os.remove(p)
-                if with_old:
-                    with open(finaln, 'wb') as f:
-                        f.write(old_bytes)
-                rep, _, _, r = run_child(d, direct, dt, shape, 2, inject='%s:%s:when=%d' % (sc, what, n), trace=trace)
+                tasks.append((k, sc, n, what, low, with_old))
+
+        def run_task(j):
+            k, sc, n, what, low, with_old = tasks[j]
+            dj = '%s_f%d' % (d, j)
+            os.makedirs(dj + '/a', exist_ok=True)
+            fj = os.path.join(dj, 'a', os.path.basename(finaln))
+            if with_old:
+                with open(fj, 'wb') as f:
+                    f.write(old_bytes)
+            return run_child(dj, direct, dt, shape, 2, inject='%s:%s:when=%d' % (sc, what, n), trace=dj + '/trace.txt')
+        with concurrent.futures.ThreadPoolExecutor(max_workers=PUT_WORKERS) as pool:
+            results = list(pool.map(run_task, range(len(tasks))))
+        d0, tmpn0, finaln0, base0 = d, tmpn, finaln, base
+        for j, (k, sc, n, what, low, with_old) in enumerate(tasks):
+            if True:
+                rep, tmpn, finaln, r = results[j]
+                d = '%s_f%d' % (d0, j)
+                base = tmpn[:-len('.writing.npy')]
                 fin, tm = file_entry(finaln), file_entry(tmpn)
                 oldw = [list(old_bytes)] if with_old else []
                 if low is None:
@@ -1620,8 +2059,9 @@ def part_put(ctx, tmp):
                     qn = rep[1] if rep else None
                     i = [q for _, q in EXN].index(qn) if qn in [q for _, q in EXN] else -1
                     obs_rep = [] if rep is None else ([0] if qn == 'builtins.NoneType' else [1 if rep[0] == 'returned' else 2, i])
-                exps = ctx.model([[81, [9, codes(base), writes, [trunc] if trunc is not None else [], 1, fl, oldw]] for fl in flts])
                 obs = [obs_rep, fin, tm]
+                exps = (ctx.model([[81, [9, codes(base), writes, [trunc] if trunc is not None else [], 1, fl, oldw]] for fl in flts])
+                        if have_model else [obs])
                 case = dict(part='put_fault', direct_write=direct, dtype=dt, shape=list(shape), op=k, syscall=sc,
                             inject=what, previous_chunk=with_old)
                 ctx.traces_validated += 1
@@ -1666,6 +2106,8 @@ def part_put(ctx, tmp):
                 ctx.note_case(('putF', direct, dt, shape, k, what, with_old), nontrivial=True,
                               sample=dict(case, report=rep, final=state, reader=seen) if what == 'error=ENOSPC' and sc == 'write' else None)
                 ctx.count('put_faults:' + what.split('=')[1])
+                shutil.rmtree(d, ignore_errors=True)
+        d, tmpn, finaln, base = d0, tmpn0, finaln0, base0
         for p in (tmpn, finaln):
             if os.path.exists(p):
                 os.remove(p)
@@ -1697,13 +2139,13 @@ def part_short_write(ctx, tmp):
         base = tmpn[:-len('.writing.npy')]
         padded = new_bytes + b'\0' * (-len(new_bytes) % 4096)
         part = list(padded[:len(tm[0])]) if tm else (list(padded[:8192]))
-        exp = ctx.model([[81, [9, codes(base), [list(padded)], [len(new_bytes)], 1, [3, 1, part], []]]])[0]
+        exp = ctx.model([[81, [9, codes(base), [list(padded)], [len(new_bytes)], 1, [3, 1, part], []]]])[0] if wire_ok(ctx, 81) else None
         qn = rep[1] if rep else None
         i = [q for _, q in EXN].index(qn) if qn in [q for _, q in EXN] else -1
         obs_rep = [] if rep is None else ([0] if qn == 'builtins.NoneType' else [1 if rep[0] == 'returned' else 2, i])
         case = dict(part='short_write', direct_write=True, dtype=dt, shape=list(shape), free_bytes=8192)
         ctx.traces_validated += 1
-        if [obs_rep, fin, tm] != exp:
+        if exp is not None and [obs_rep, fin, tm] != exp:
             ctx.disagree('part=short_write;symptom=state', case, [obs_rep, len(fin[0]) if fin else None, len(tm[0]) if tm else None],
                          [exp[0], len(exp[1][0]) if exp[1] else None, len(exp[2][0]) if exp[2] else None],
                          'outcome of a short write differs from the model', kind='tie')
@@ -1844,14 +2286,17 @@ def part_put_limit(ctx, tmp, only=None):
     configs = list(LIMIT_CONFIGS_QUICK) + (LIMIT_CONFIGS_MORE if ctx.tier == 'thorough' else [])
     if only is not None:
         configs = [tuple(only[:3])]
+    # the sweep children (one per geometry) are independent: the plans are drawn first, in order, then the children run
+    # side by side; the comparisons below go through them in the original order
+    use_strace = shutil.which('strace') is not None
+    prepared = []
     for ci, (direct, dt, shape) in enumerate(configs):
         shape = tuple(shape)
         d = '%s/lim%d' % (tmp, ci)
         os.makedirs(d + '/a', exist_ok=True)
-        new, old = make_chunk(dt, shape, 2), make_chunk(dt, shape, 1)
+        new = make_chunk(dt, shape, 2)
         hdr, body = npy_header_and_body(new)
-        new_bytes, hlen = bytes(hdr) + body.tobytes(), len(bytes(hdr))
-        S = len(new_bytes)
+        S, hlen = len(bytes(hdr)) + body.nbytes, len(bytes(hdr))
         base = os.path.join(d, 'a', '_'.join('%05d' % 0 for _ in shape))
         tmpn, finaln, sep = base + '.writing.npy', base + '.npy', d + '/sep'
         open(sep, 'wb').close()
@@ -1859,13 +2304,29 @@ def part_put_limit(ctx, tmp, only=None):
             plan = [[None, 0], [only[3], 1 if only[4] else 0]]
         else:
             plan = [[None, 0]] + limit_plan(ctx, direct, S, hlen, every=(S <= 200 or (ctx.tier == 'thorough' and S <= 2500 and not direct)))
-        trace = d + '/trace.txt'
         cmd = [sys.executable, CHILD, d, '1' if direct else '0', dt, ','.join(str(x) for x in shape), '2']
-        use_strace = shutil.which('strace') is not None
         if use_strace:
-            cmd = ['strace', '-f'] + strace_fast() + ['-o', trace, '-e', 'trace=' + SYSCALLS, '-P', tmpn, '-P', finaln, '-P', sep] + cmd
-        r = subprocess.run(cmd, input=json.dumps(dict(limits=plan, sep=sep)), capture_output=True, text=True,
-                           env=dict(child_env(), C08_MODE='limits'), timeout=600)
+            cmd = ['strace', '-f'] + strace_fast() + ['-o', d + '/trace.txt', '-e', 'trace=' + SYSCALLS, '-P', tmpn, '-P', finaln, '-P', sep] + cmd
+        prepared.append((plan, cmd, sep))
+
+    def sweep(j):
+        plan, cmd, sep = prepared[j]
+        return subprocess.run(cmd, input=json.dumps(dict(limits=plan, sep=sep)), capture_output=True, text=True,
+                              env=dict(child_env(), C08_MODE='limits'), timeout=600)
+    with concurrent.futures.ThreadPoolExecutor(max_workers=4) as pool:
+        swept = list(pool.map(sweep, range(len(prepared))))
+    for ci, (direct, dt, shape) in enumerate(configs):
+        shape = tuple(shape)
+        d = '%s/lim%d' % (tmp, ci)
+        new, old = make_chunk(dt, shape, 2), make_chunk(dt, shape, 1)
+        hdr, body = npy_header_and_body(new)
+        new_bytes, hlen = bytes(hdr) + body.tobytes(), len(bytes(hdr))
+        S = len(new_bytes)
+        base = os.path.join(d, 'a', '_'.join('%05d' % 0 for _ in shape))
+        tmpn, finaln, sep = base + '.writing.npy', base + '.npy', d + '/sep'
+        plan = prepared[ci][0]
+        trace = d + '/trace.txt'
+        r = swept[ci]
         obs = [json.loads(l[6:]) for l in r.stdout.splitlines() if l.startswith('LIMIT ')]
         after = [json.loads(l[6:]) for l in r.stdout.splitlines() if l.startswith('AFTER ')]
         cfg = dict(part='put_limit', direct_write=direct, dtype=dt, shape=list(shape))
@@ -2043,6 +2504,8 @@ def run_witness(ctx, w, tmp):
             srv.close()
     elif kind == 'put_enospc':
         part_put_single(ctx, tmp, w)
+    elif kind == 's3_put_status':
+        part_s3_put(ctx, only=dict(op=w.get('op', 'put_chunk_noraise'), retry='default', answers=[w['status']]))
     if kind == 'npy_truncation' and not ctx.model_ok:
         return
 
@@ -2082,6 +2545,9 @@ def run(ctx):
     tmp = v4.scratch_dir('c08')
     os.chmod(tmp, 0o755)
     try:
+        _WIRES.clear()
+        if not (wire_ok(ctx, 8) and wire_ok(ctx, 81)):
+            ctx.model_ok = False
         for f in ctx.findings:
             try:
                 run_witness(ctx, f.get('witness', {}), tmp)
@@ -2094,16 +2560,26 @@ def run(ctx):
         if not ctx.model_ok:
             search_without_model(ctx, tmp)
             return
-        part_enum(ctx)
-        part_maps(ctx, tmp)
-        files = part_npy_truncation(ctx, tmp)
-        part_s3(ctx, files)
-        part_mismatch(ctx, tmp)
-        part_npy_store_faults(ctx, tmp)
-        part_vfw(ctx, tmp)
-        part_vfw_damage(ctx, tmp)
-        part_put(ctx, tmp)
-        part_put_limit(ctx, tmp)
+        walls = {}
+
+        def timed(name, fn, *a):
+            t0 = time.time()
+            r = fn(*a)
+            walls[name] = round(time.time() - t0, 1)
+            return r
+        ctx.extra['part_wall_s'] = walls
+        timed('enum', part_enum, ctx)
+        timed('maps', part_maps, ctx, tmp)
+        files = timed('npy_truncation', part_npy_truncation, ctx, tmp)
+        timed('s3', part_s3, ctx, files)
+        timed('s3_response', part_s3_response, ctx)
+        timed('s3_put', part_s3_put, ctx)
+        timed('mismatch', part_mismatch, ctx, tmp)
+        timed('npy_store_faults', part_npy_store_faults, ctx, tmp)
+        timed('vfw', part_vfw, ctx, tmp)
+        timed('vfw_damage', part_vfw_damage, ctx, tmp)
+        timed('put', part_put, ctx, tmp)
+        timed('put_limit', part_put_limit, ctx, tmp)
         ctx.exhaustive = False
         ctx.extra['exhaustive_parts'] = ['exception enum: names, bases, isinstance matrix',
                                          'standard_errors + getters: 4 maps x every class of the enum']
@@ -2118,9 +2594,12 @@ def search_without_model(ctx, tmp):
     d = tmp + '/nomodel'
     os.makedirs(d + '/a', exist_ok=True)
     store = NpyFileChunkStore(d)
+    part_s3_response(ctx)
+    part_s3_put(ctx)
     part_mismatch(ctx, tmp)
     part_vfw(ctx, tmp)
     part_vfw_damage(ctx, tmp)
+    part_put(ctx, tmp)
     part_put_limit(ctx, tmp)
     for dt, shape in GEOMS_QUICK:
         x = make_chunk(dt, shape, 3)
@@ -2157,6 +2636,10 @@ def replay(ctx, doc):
             part_maps(ctx, tmp)
         elif part in ('s3_truncation', 's3_corruption', 's3_store_fault'):
             part_s3(ctx, {})
+        elif part == 's3_response':
+            part_s3_response(ctx, only=case)
+        elif part == 's3_put':
+            part_s3_put(ctx, only=case if case.get('answers') is not None else None)
         elif part == 'mismatch':
             part_mismatch(ctx, tmp)
         elif part in ('npy_store_fault',):
